@@ -403,6 +403,42 @@ pub fn check(case: &Case) -> CaseResult {
     Ok(classes)
 }
 
+/// run `f` inside a tokio task whose cooperative budget for the current poll is used up (a task
+/// that has just drained a burst of ready work): tokio's own primitives then report Pending even
+/// when they are ready
+pub fn with_exhausted_tokio_budget<T>(f: impl FnOnce() -> T) -> (T, usize) {
+    let rt = tokio::runtime::Builder::new_current_thread().build().unwrap();
+    rt.block_on(async {
+        let (tx, mut rx) = tokio::sync::mpsc::unbounded_channel::<u8>();
+        for _ in 0..400 {
+            let _ = tx.send(0);
+        }
+        let mut f = Some(f);
+        let mut drained = 0usize;
+        std::future::poll_fn(move |cx| {
+            loop {
+                match rx.poll_recv(cx) {
+                    std::task::Poll::Ready(Some(_)) => drained += 1,
+                    std::task::Poll::Ready(None) => break,
+                    // messages remain, so Pending here means the budget of this poll is spent
+                    std::task::Poll::Pending => break,
+                }
+            }
+            std::task::Poll::Ready((f.take().unwrap()(), drained))
+        })
+        .await
+    })
+}
+
+pub fn check_in_busy_task(case: &Case) -> CaseResult {
+    let (r, drained) = with_exhausted_tokio_budget(|| check(case));
+    let mut c = r?;
+    if drained < 400 {
+        c.push("tokio-budget-exhausted");
+    }
+    Ok(c)
+}
+
 pub fn arb_op() -> impl Strategy<Value = Op> {
     let mode = prop::sample::select(vec![Mode::Wait, Mode::Discard]);
     prop_oneof![
@@ -538,6 +574,27 @@ pub fn run(ctx: &mut Ctx) {
             })
         },
         check,
+    );
+    ctx.explore(
+        SubCfg::new(
+            "c13-busy-tokio-task",
+            "the random single-threaded sequences (without wait_for_data polls) executed inside a tokio task whose cooperative budget for the current poll is exhausted (it has just drained a burst of 128+ ready channel messages): closing the entry there must pick up slot values exactly as on a plain thread. Non-trivial = parent dropped before a wait-mode guard",
+            if q { 4_000 } else { 100_000 },
+        )
+        .threads(ctx.tier.pick(4, 8))
+        .mandatory(&["tokio-budget-exhausted", "wait-mode", "discard-mode"]),
+        || {
+            prop::collection::vec(arb_op(), 0..30).prop_map(|mut ops| {
+                ops.retain(|o| !matches!(o, Op::PollWait1));
+                Case {
+                    ops,
+                    concurrent: false,
+                    order: vec![],
+                    jitter: vec![],
+                }
+            })
+        },
+        check_in_busy_task,
     );
     ctx.explore(
         SubCfg::new(
